@@ -28,6 +28,41 @@ def substP (ρ : String → Option (Num K)) : Expr → Expr
   | .sub a b => .sub (substP ρ a) (substP ρ b)
   | .fn f e => .fn f (substP ρ e)
 
+/-- replace every measured-register reference that has a value by the bracketed literal of that
+value: the written formula evaluated at measurement outcomes (right-hand side of C08) -/
+def substR (ρ : String → Option (Num K)) : Expr → Expr
+  | .num k t => .num k t
+  | .var y pos => .var y pos
+  | .reg t => match ρ t with
+              | some n => .brk (exprOfNum n)
+              | none => .reg t
+  | .idx y pos i => .idx y pos (substR ρ i)
+  | .par p => .par p
+  | .brk e => .brk (substR ρ e)
+  | .pos e => .pos (substR ρ e)
+  | .neg e => .neg (substR ρ e)
+  | .pow a b => .pow (substR ρ a) (substR ρ b)
+  | .mul a b => .mul (substR ρ a) (substR ρ b)
+  | .div a b => .div (substR ρ a) (substR ρ b)
+  | .add a b => .add (substR ρ a) (substR ρ b)
+  | .sub a b => .sub (substR ρ a) (substR ρ b)
+  | .fn f e => .fn f (substR ρ e)
+
+/-- the register references written in an expression -/
+def Expr.regsL : Expr → List String
+  | .reg t => [t]
+  | .idx _ _ i => i.regsL
+  | .brk e => e.regsL
+  | .pos e => e.regsL
+  | .neg e => e.regsL
+  | .pow a b => a.regsL ++ b.regsL
+  | .mul a b => a.regsL ++ b.regsL
+  | .div a b => a.regsL ++ b.regsL
+  | .add a b => a.regsL ++ b.regsL
+  | .sub a b => a.regsL ++ b.regsL
+  | .fn _ e => e.regsL
+  | _ => []
+
 def substPArgVal (ρ : String → Option (Num K)) : ArgVal → ArgVal
   | .expr e => .expr (substP ρ e)
   | v => v
@@ -87,6 +122,29 @@ def Val.plain : Val K → Bool
 `x * y**(-1)` and Python evaluates the power, the evaluator takes NumPy's reciprocal -/
 def RecipLaw (K : Type) [Scalar K] : Prop :=
   ∀ n : Num K, Num.pyPow n (.int (-1)) = .ok n.recip
+
+/-! ### register values written into a script (used by the driver to tie `substR` to the code) -/
+
+def substRArgVal (ρ : String → Option (Num K)) : ArgVal → ArgVal
+  | .expr e => .expr (substR ρ e)
+  | v => v
+
+def substRKwVal (ρ : String → Option (Num K)) : KwVal → KwVal
+  | .one v => .one (substRArgVal ρ v)
+  | .list vs => .list (vs.map (substRArgVal ρ))
+
+def substRStmt (ρ : String → Option (Num K)) (s : Stmt) : Stmt :=
+  { s with args := s.args.map fun a =>
+      ⟨a.pos.map (substRArgVal ρ), a.kw.map fun kv => (kv.1, substRKwVal ρ kv.2)⟩ }
+
+def substRItem (ρ : String → Option (Num K)) : Item → Item
+  | .stmt s => .stmt (substRStmt ρ s)
+  | .loop ty x h body => .loop ty x h (body.map (substRStmt ρ))
+  | it => it
+
+/-- the script with measured values written in place of the register references of its arguments -/
+def substRScript (ρ : String → Option (Num K)) (sc : Script) : Script :=
+  { sc with items := sc.items.map (substRItem ρ) }
 
 /-! ### whole scripts -/
 
